@@ -15,6 +15,7 @@ package pem
 //@   ensures [C07.pem.step.shrinks] len(crtb) > 0 ==> len(result1) < len(crtb)
 //@   ensures [C07.pem.step.len] 0 <= len(result1) && len(result1) <= len(crtb)
 //@   ensures [C07.pem.step.err] result2 != nil ==> result == nil
+//@   ensures [C07.pem.step.parsed] result != nil ==> wfcert(result)
 
 //@ func DecodePEMCertificates
 //@   tags C07
@@ -22,8 +23,10 @@ package pem
 //@   ensures [C07.pem.certs.err] result1 != nil ==> result == nil
 //@   ensures [C07.pem.certs.some] result1 == nil ==> len(result) >= 1
 //@   ensures [C07.pem.certs.nonnil] result1 == nil ==> (forall i :: 0 <= i && i < len(result) ==> result[i] != nil)
+// every certificate handed out is one x509.ParseCertificate produced (what CheckSignatureFrom can be called on)
+//@   ensures [C07.pem.certs.parsed] result1 == nil ==> (forall i :: 0 <= i && i < len(result) ==> wfcert(result[i]))
 //@   loop 0 invariant fresh(certs)
-//@   loop 0 invariant forall i :: 0 <= i && i < len(certs) ==> certs[i] != nil
+//@   loop 0 invariant forall i :: 0 <= i && i < len(certs) ==> (certs[i] != nil && wfcert(certs[i]))
 //@   loop 0 invariant len(crtb) >= 0
 //@   loop 0 decreases len(crtb)
 
@@ -31,6 +34,7 @@ package pem
 //@   tags C07
 //@   modifies nothing
 //@   ensures [C07.pem.chain.err] result1 != nil ==> result == nil
+//@   ensures [C07.pem.chain.parsed] result1 == nil ==> (forall j :: 0 <= j && j < len(result) ==> (result[j] != nil && wfcert(result[j])))
 //@   loop 0 invariant 0 <= i
 //@   loop 0 decreases len(certs) - i
 
@@ -48,8 +52,13 @@ package pem
 //@   replay val isecdsa = typeis(call_ParsePKCS8PrivateKey_0_key, "*crypto/ecdsa.PrivateKey")
 //@   replay val ised25519 = typeis(call_ParsePKCS8PrivateKey_0_key, "crypto/ed25519.PrivateKey")
 
+// EncodePrivateKey / EncodeX509Chain take key and certificate *objects*, not byte strings: an ECDSA key has to be a
+// well-formed key (from a parser or a generator; a typed-nil pointer or a key struct without curve point / D makes
+// x509.MarshalPKCS8PrivateKey dereference nil), certificates have to be nil or parsed certificates (a hand-built
+// Certificate with an algorithm but an empty public key makes CheckSignatureFrom dereference nil). Listed with the evidence.
 //@ func EncodePrivateKey
 //@   tags C07
+//@   requires typeis(key, "*crypto/ecdsa.PrivateKey") ==> (unbox(key, "*crypto/ecdsa.PrivateKey") != nil && wfeckey(unbox(key, "*crypto/ecdsa.PrivateKey")))
 //@   modifies nothing
 //@   ensures [C07.pem.enckey.err] result1 != nil ==> result == nil
 //@   ensures [C07.pem.enckey.fresh] result1 == nil ==> fresh(result)
@@ -61,6 +70,7 @@ package pem
 
 //@ func EncodeX509Chain
 //@   tags C07
+//@   requires forall j :: (0 <= j && j < len(certs) && certs[j] != nil) ==> wfcert(certs[j])
 //@   modifies nothing
 //@   ensures [C07.pem.encchain.err] result1 != nil ==> result == nil
 //@   ensures [C07.pem.encchain.empty] len(certs) == 0 ==> result1 != nil
